@@ -142,6 +142,16 @@ PROPS = {
     note='bounded: 1-2 variables of size 2-3 (non-uniform shapes S4, S5 included); real sums on dyadic values',
     design_ref='DESIGN.md 4/C09',
  ),
+ 'C10': dict(
+    level=EX, engines=[('rel', 'eng_c10')],
+    technique='bounded exhaustive enumeration of every function of the source universe x every ordered pair of forest kinds (8x8 set kinds, 15x15 relation kinds, plus a distinct forest of the same kind) through COPY on the real library, compared with the scalar conversion table; round trip must return the identical edge',
+    rule='every function of |V|^points (or the structured family) per source kind x every target kind (values the target cannot represent are skipped and counted) ; evaluate + independent walker at every point; canonical edge in the target; when the conversion is injective on the alphabet, copy back must be the identical source edge; audit of the target forest. non-trivial = non-constant source',
+    bounds={'quick': 'sets S1-S3 complete (up to 256 functions), S4 complete for boolean / family otherwise; relations S1 complete (256 functions), S2 complete for boolean / B0 otherwise',
+            'thorough': 'adds sets S4 complete, S5; relations S3, S4 via B0'},
+    text='Exhaustive over the stated source universes and all ordered kind pairs.',
+    note='bounded: 1-2 variables; +infinity only copied to EV+ targets; known finding KF-C10-1',
+    design_ref='DESIGN.md 4/C10',
+ ),
 }
 
 NOT_YET = {}
